@@ -140,6 +140,10 @@ def ops : List (String × Op) := [
   ("complement2", do
       let n ← pText; let c ← pChar; pArrow; let a ← pAns pChar
       pure (verdict (okComplementTwice n c a))),
+  ("revcomp", do
+      let n ← pText; let t ← pText; pArrow
+      let a ← pAns (do let r ← pText; pure (if r == "_".toList then [] else r))
+      pure (verdict (okRevComp n (if t == "_".toList then [] else t) a))),
   ("alphabet", do
       let n ← pText; pArrow
       let a ← pAns (do let l ← pText; let f ← pBoolWord; pure (l, f))
